@@ -112,7 +112,7 @@ func logqlPositions(name, group, tmpl string, q quoter, want func(string) []lit,
 		{"rate", "rate(%s [1m])"},
 		{"sumby", "sum by (b) (bytes_over_time(%s [1m]))"},
 	}
-	if strings.HasPrefix(name, "labelfilter=") || strings.HasPrefix(name, "labelfilter!") {
+	if strings.HasPrefix(name, "labelfilter=") || strings.HasPrefix(name, "labelfilter!") || strings.HasPrefix(name, "ident.labelfilter.simple") {
 		// the shortcut drops a label filter on stream labels: use a range it does not apply to
 		hosts[1].f = "rate(%s [10s])"
 	}
@@ -256,6 +256,10 @@ func allPositions() []*position {
 	add(logqlPositions("ident.labelfilter.name", "ident", `{b="x"} | json c="c" | %s="v"`, lid, func(e string) []lit {
 		return []lit{{Val: e}}
 	})...)
+	// raw Sprintf sites: JSONExtractString(labels, '%s') and labels['%s'] take the label NAME without escaping
+	add(logqlPositions("ident.labelfilter.simple.name", "ident", `{b="x"} | %s="v"`, lid, exactWant)...)
+	add(logqlPositions("ident.labelfilter.simple.numeric.name", "ident", `{b="x"} | %s > 5`, lid, exactWant)...)
+	add(logqlPositions("ident.labelfilter.numeric.name", "ident", `{b="x"} | json c="c" | %s >= 5`, lid, exactWant)...)
 	add(logqlPositions("ident.json.label", "ident", `{b="x"} | json %s="c"`, lid, exactWant)...)
 	add(logqlPositions("ident.drop.name", "ident", `{b="x"} | json c="c" | drop %s`, lid, exactWant)...)
 	add(logqlPositions("ident.label_format.name", "none", `{b="x"} | label_format %s="v"`, lid, nil, func(p *position) { p.NoSlot = true })...)
